@@ -37,6 +37,7 @@ type poolCfg struct {
 	Name                       string
 	Size, Future, AccountQueue int
 	UTXOSize                   int // 0 = repository default
+	MaxReap                    int // 0 = repository default
 	Remove                     bool
 	Cache                      string // "light" (the real cache type) | "none"
 }
@@ -49,6 +50,9 @@ func (p poolCfg) mempool() *cfg.MempoolConfig {
 	if p.UTXOSize > 0 {
 		m.UTXOSize = p.UTXOSize
 	}
+	if p.MaxReap > 0 {
+		m.MaxReapSize = p.MaxReap
+	}
 	m.RemoveFutureTx = p.Remove
 	return m
 }
@@ -60,6 +64,81 @@ var allCfgs = []poolCfg{
 	{Name: "s1f4q1", Size: 1, Future: 4, AccountQueue: 1, Remove: true, Cache: "light"},
 	{Name: "default-nocache", Cache: "none"},
 	{Name: "s3f2q1-utxo1", Size: 3, Future: 2, AccountQueue: 1, UTXOSize: 1, Remove: true, Cache: "light"},
+	// every quota of Reap is small: one confidential-typed transaction per list and block, two transactions per block
+	{Name: "s3f2q1-utxo1-reap2", Size: 3, Future: 2, AccountQueue: 1, UTXOSize: 1, MaxReap: 2, Remove: true, Cache: "light"},
+	{Name: "s4f2q2-utxo2", Size: 4, Future: 2, AccountQueue: 2, UTXOSize: 2, Remove: true, Cache: "light"},
+}
+
+// ---------------------------------------------------------------------------------------------------
+// searches: pool configuration x subset of the AddTx letters x depth (the commit operations are always enabled)
+
+type searchSpec struct {
+	Name    string
+	Cfg     string
+	Letters []string // nil = every letter
+	Depth   int
+}
+
+var (
+	// the letters of the DESIGN
+	lettersBase = []string{"a1", "a2", "a3", "a1x", "a0", "b0", "b1", "u1", "u2", "big", "c0", "aLow"}
+	// + a plain twin of c1, a second independent confidential spend, an outright underfunded transfer
+	lettersWide = append(append([]string{}, lettersBase...), "c1p", "u3", "bU")
+	// quota crossing: one sender with two account->confidential transfers at consecutive nonces followed by a plain
+	// transfer (c0, c1, c2), a third account->confidential transfer of another sender (aA), other senders' plain
+	// transfers, two independent pure confidential spends
+	lettersQuota = []string{"c0", "c1", "c2", "aA", "a1", "a2", "b0", "u1", "u3"}
+)
+
+func searchSpecs(thorough bool) []searchSpec {
+	if !thorough {
+		return []searchSpec{
+			{"s2f2q2", "s2f2q2", lettersBase, 5},
+			{"s1f4q1", "s1f4q1", lettersBase, 5},
+			{"default", "default", lettersBase, 5},
+			{"quota-utxo1-reap2", "s3f2q1-utxo1-reap2", lettersQuota, 5},
+		}
+	}
+	return []searchSpec{
+		{"s2f2q2", "s2f2q2", lettersWide, 7},
+		{"s1f4q1", "s1f4q1", lettersWide, 7},
+		{"default", "default", lettersWide, 6},
+		{"default-nocache", "default-nocache", lettersWide, 6},
+		{"s3f2q1-utxo1", "s3f2q1-utxo1", nil, 6},
+		{"quota-utxo1-reap2", "s3f2q1-utxo1-reap2", lettersQuota, 6},
+		{"quota-utxo2", "s4f2q2-utxo2", lettersQuota, 6},
+	}
+}
+
+func findSearch(thorough bool, name string) *searchSpec {
+	for _, sp := range searchSpecs(thorough) {
+		if sp.Name == name {
+			sp := sp
+			return &sp
+		}
+	}
+	return nil
+}
+
+// enabledOps: which operations of the global list belong to the search's alphabet.
+func (u *universe) enabledOps(sp *searchSpec) []bool {
+	ops := u.ops()
+	out := make([]bool, len(ops))
+	for i, o := range ops {
+		if o.kind != opAdd || sp.Letters == nil {
+			out[i] = true
+			continue
+		}
+		for _, l := range sp.Letters {
+			if u.txs[o.x].Name == l {
+				out[i] = true
+			}
+		}
+	}
+	for _, l := range sp.Letters {
+		u.txByName(l) // must exist
+	}
+	return out
 }
 
 // ---------------------------------------------------------------------------------------------------
@@ -175,7 +254,7 @@ func (u *universe) add(name, class string, tx types.Tx, alphabet bool) int {
 }
 
 // buildUniverse is a deterministic function of the tier: every process (parent and workers) builds the same bytes.
-func buildUniverse(thorough bool, cfgs []poolCfg) *universe {
+func buildUniverse(cfgs []poolCfg) *universe {
 	u := &universe{byHash: map[common.Hash]int{}, pnames: map[common.Hash]string{}, bases: map[string]*base{}, validated: map[string]bool{}}
 	u.walDir = filepath.Join(scratchDir(), fmt.Sprintf("chains-%d", os.Getpid()))
 	if err := os.MkdirAll(u.walDir, 0700); err != nil {
@@ -237,11 +316,13 @@ func buildUniverse(thorough bool, cfgs []poolCfg) *universe {
 	// "underfunded" on the fee side: an account->confidential transfer of A (nonce 1) that is signed, balanced and covered by
 	// the balance, but whose fee (0) is below the required one
 	u.add("aLow", "fee-too-low", mk(kit.AccountToUTXO(A, 1, []txkit.Dest{txkit.ToWallet(txkit.W2, 1, txkit.LKC(20))}, new(big.Int))), true)
-	if thorough {
-		u.add("c1", "next", txkit.Transfer(C, 1, D.Addr, txkit.LKC(5)), true)
-		u.add("u3", "conf", mk(kit.Transfer(led, txkit.W0, own[1:2], 1, []txkit.Dest{txkit.ToWallet(txkit.W1, 1, txkit.LKC(40))}, 0)), true)
-		u.add("bU", "underfunded", txkit.Underfunded(B, 0, D.Addr, initialBalance), true)
-	}
+	// letters that only some searches use (the universe itself does not depend on the tier)
+	u.add("c1", "ain-next", mk(kit.AccountToUTXO(C, 1, []txkit.Dest{txkit.ToWallet(txkit.W2, 2, txkit.LKC(50))}, nil)), true)
+	u.add("c2", "next-next", txkit.Transfer(C, 2, D.Addr, txkit.LKC(5)), true)
+	u.add("aA", "ain", mk(kit.AccountToUTXO(A, 1, []txkit.Dest{txkit.ToWallet(txkit.W1, 2, txkit.LKC(30))}, nil)), true)
+	u.add("c1p", "twin", txkit.Transfer(C, 1, D.Addr, txkit.LKC(5)), true)
+	u.add("u3", "conf", mk(kit.Transfer(led, txkit.W0, own[1:2], 1, []txkit.Dest{txkit.ToWallet(txkit.W1, 1, txkit.LKC(40))}, 0)), true)
+	u.add("bU", "underfunded", txkit.Underfunded(B, 0, D.Addr, initialBalance), true)
 	u.nAdd = len(u.txs)
 	// CommitOther: blocks that do not come from the pool and conflict with pool content
 	b0x := u.add("b0x", "twin", txkit.Transfer(B, 0, D.Addr, txkit.LKC(1)), false)
@@ -292,6 +373,7 @@ func (u *universe) ops() []op {
 	for _, x := range u.others {
 		out = append(out, op{opCommitOther, x})
 	}
+	out = append(out, op{opCommitOther, -1}) // an empty block from elsewhere, whatever the pool holds
 	return out
 }
 
@@ -305,6 +387,9 @@ func (u *universe) opName(o op) string {
 		}
 		return fmt.Sprintf("CommitReaped(%d)", o.x)
 	case opCommitOther:
+		if o.x < 0 {
+			return "CommitOther([])"
+		}
 		return "CommitOther([" + u.txs[o.x].Name + "])"
 	}
 	return "?"
@@ -330,8 +415,9 @@ type inst struct {
 	base      *base
 	blocks    []string // transactions of the blocks committed in this history
 	committed map[common.Hash]bool
-	lastAdd   string // result of the last AddTx ("ok" or the error text)
-	reaps     int    // Reap outputs examined by the oracle
+	lastAdd   string          // result of the last AddTx ("ok" or the error text)
+	reaps     int             // Reap outputs examined by the oracle
+	limits    map[string]bool // limits of the pool / of Reap that the state judged last has reached or crossed
 	// root-cause refinement of violation keys: the first submission in this history that was REJECTED but nevertheless
 	// changed the speculative (check) state of an account ("" = none)
 	poisoned string
@@ -530,6 +616,14 @@ func (in *inst) apply(o op, variant int) (enabled bool, vkey, what string) {
 			return true, k, w
 		}
 	case opCommitOther:
+		if o.x < 0 {
+			b, err := in.c.Step(types.Txs{})
+			if err != nil {
+				vk.Fatalf("CommitOther([]): %v", err)
+			}
+			in.noteCommitted(b)
+			break
+		}
 		t := &u.txs[o.x]
 		if !in.executableNow(t) {
 			return false, "", ""
@@ -655,10 +749,34 @@ var reapSizes = []int{1, 2, 3, 10000}
 func (in *inst) oracle() (string, string) {
 	mem := in.c.Mempool()
 	cs := in.committedState()
+	v := mempl.VerifC15View(mem)
+	// which limits does this state reach or cross? (non-vacuity record: every limit must be crossed inside the bound)
+	in.limits = map[string]bool{}
+	typed := 0
+	for _, tx := range v.Good {
+		if tx.TypeName() == types.TxUTXO {
+			typed++
+		}
+	}
+	pooled := len(v.Good) + len(v.UTXO) + len(v.Spec)
+	in.limits["pool-size-reached"] = len(v.Good) >= v.Size
+	in.limits["future-size-reached"] = v.FutureCount >= v.FutureSize
+	in.limits["confidential-quota-exceeded:goodTxs"] = typed > v.UTXOSize
+	in.limits["confidential-quota-exceeded:utxoTxs"] = len(v.UTXO) > v.UTXOSize
+	in.limits["max-reap-size-exceeded"] = pooled > v.MaxReapSize
+	for _, q := range v.Future {
+		if len(q) >= v.AccountQueue {
+			in.limits["account-queue-reached"] = true
+		}
+	}
 	// 1. every Reap(n)
 	for _, n := range reapSizes {
 		in.reaps++
-		if k, w := in.checkOffer(mem.Reap(n), cs, fmt.Sprintf("Reap(%d)", n)); k != "" {
+		offer := mem.Reap(n)
+		if n < pooled {
+			in.limits["reap-n-below-pool-content"] = true
+		}
+		if k, w := in.checkOffer(offer, cs, fmt.Sprintf("Reap(%d)", n)); k != "" {
 			return k, w
 		}
 	}
@@ -679,7 +797,6 @@ func (in *inst) oracle() (string, string) {
 			return "offered-block-does-not-execute:validator", fmt.Sprintf("a replica's CheckBlock rejects the block built from Reap(%d): %s", n, in.names(b.Data.Txs))
 		}
 	}
-	v := mempl.VerifC15View(mem)
 	// 3. committed or invalidated transactions are removed (from every list, queued ones included)
 	lists := []struct {
 		name string
